@@ -13,8 +13,8 @@ every declaration minifier).
   queued `;` first; at-rule statements, declarations and custom properties queue one.
 * `selToks` — `minifySelectors` (as of 71d92ee): identifiers outside attribute selectors are lower-cased unless they
   follow a `.`, precede a `|` (namespace prefix) or are arguments of a functional pseudo-class with case-sensitive
-  arguments (`level`/`keepLevel`); inside `[…]` a string whose content `css.IsIdent` accepts and that has no backslash
-  is written without quotes, an identifier directly behind an identifier or string is preceded by a space (0ab4bcb).
+  arguments (`level`/`keepLevel`); inside `[…]` a string directly behind a matcher (b71a5f4) whose content `css.IsIdent` accepts and that has no
+  backslash is written without quotes, an identifier directly behind an identifier or string is preceded by a space (0ab4bcb).
 * `importURL` — the `@import url(x)` → `@import "x"` rewrite (as of addcaae).
 * raw tokens (`<!--`, `-->`, the content of the block of an at-rule the parser does not know): written as they are;
   since 71288ab a space is written first when the parser skipped a comment between the previous raw token and this
@@ -119,9 +119,16 @@ structure SelSt where
   prevColon : Bool
   /-- the previous token was an identifier or a string (`values[i-1]`) -/
   prevIdStr : Bool
+  /-- the previous token was an attribute matcher (`=`, `~=`, `|=`, `^=`, `$=`, `*=`) -/
+  prevMatcher : Bool
   deriving Repr, DecidableEq
 
-def SelSt.init : SelSt := ⟨false, false, 0, 0, false, false⟩
+def SelSt.init : SelSt := ⟨false, false, 0, 0, false, false, false⟩
+
+/-- the matcher test of `minifySelectors` (b71a5f4) -/
+def isMatcherTok (t : Tok) : Bool :=
+  (t.tt == .delim && t.data.head? == some '=') || t.tt == .includeMatch || t.tt == .dashMatch ||
+  t.tt == .prefixMatch || t.tt == .suffixMatch || t.tt == .substringMatch
 
 /-- the tokens `minifySelectors` writes for the selector tokens `ts` -/
 def selGo (st : SelSt) : List Tok → List Tok
@@ -129,29 +136,30 @@ def selGo (st : SelSt) : List Tok → List Tok
   | t :: r =>
     let pc := t.tt == .colon
     let ps := t.tt == .ident || t.tt == .string
+    let pm := isMatcherTok t
     if !st.inAttr then
       if t.tt == .ident then
         let isPrefix := match r with | n :: _ => isBar n | [] => false
         .mk .ident (if !st.isClass && !isPrefix && st.keepLevel == 0 then lower t.data else t.data) t.args ::
-          selGo { st with isClass := false, prevColon := pc, prevIdStr := ps } r
-      else if t.tt == .delim && t.data.head? == some '.' then t :: selGo { st with isClass := true, prevColon := pc, prevIdStr := ps } r
-      else if t.tt == .leftBracket then t :: selGo { st with inAttr := true, prevColon := pc, prevIdStr := ps } r
+          selGo { st with isClass := false, prevColon := pc, prevIdStr := ps, prevMatcher := pm } r
+      else if t.tt == .delim && t.data.head? == some '.' then t :: selGo { st with isClass := true, prevColon := pc, prevIdStr := ps, prevMatcher := pm } r
+      else if t.tt == .leftBracket then t :: selGo { st with inAttr := true, prevColon := pc, prevIdStr := ps, prevMatcher := pm } r
       else if t.tt == .function then
         let keep := st.keepLevel == 0 && st.prevColon && !caseInsensitiveArgs.contains (lower t.data.dropLast)
-        t :: selGo { st with level := st.level + 1, keepLevel := if keep then st.level + 1 else st.keepLevel, prevColon := pc, prevIdStr := ps } r
-      else if t.tt == .leftParen then t :: selGo { st with level := st.level + 1, prevColon := pc, prevIdStr := ps } r
+        t :: selGo { st with level := st.level + 1, keepLevel := if keep then st.level + 1 else st.keepLevel, prevColon := pc, prevIdStr := ps, prevMatcher := pm } r
+      else if t.tt == .leftParen then t :: selGo { st with level := st.level + 1, prevColon := pc, prevIdStr := ps, prevMatcher := pm } r
       else if t.tt == .rightParen then
         t :: selGo { st with keepLevel := if st.level == st.keepLevel then 0 else st.keepLevel,
-                             level := st.level - 1, prevColon := pc, prevIdStr := ps } r
-      else t :: selGo { st with prevColon := pc, prevIdStr := ps } r
+                             level := st.level - 1, prevColon := pc, prevIdStr := ps, prevMatcher := pm } r
+      else t :: selGo { st with prevColon := pc, prevIdStr := ps, prevMatcher := pm } r
     else
-      if t.tt == .string && 2 < t.data.length && isIdent ((t.data.drop 1).dropLast) && !((t.data.drop 1).dropLast).contains '\\' then
-        .mk .ident ((t.data.drop 1).dropLast) [] :: selGo { st with prevColon := pc, prevIdStr := ps } r
-      else if t.tt == .string && 2 < t.data.length then t :: selGo { st with prevColon := pc, prevIdStr := ps } r
-      else if t.tt == .rightBracket then t :: selGo { st with inAttr := false, prevColon := pc, prevIdStr := ps } r
+      if t.tt == .string && 2 < t.data.length && st.prevMatcher && isIdent ((t.data.drop 1).dropLast) && !((t.data.drop 1).dropLast).contains '\\' then
+        .mk .ident ((t.data.drop 1).dropLast) [] :: selGo { st with prevColon := pc, prevIdStr := ps, prevMatcher := pm } r
+      else if t.tt == .string && 2 < t.data.length then t :: selGo { st with prevColon := pc, prevIdStr := ps, prevMatcher := pm } r
+      else if t.tt == .rightBracket then t :: selGo { st with inAttr := false, prevColon := pc, prevIdStr := ps, prevMatcher := pm } r
       else if t.tt == .ident && st.prevIdStr then
-        wsTok :: t :: selGo { st with prevColon := pc, prevIdStr := ps } r
-      else t :: selGo { st with prevColon := pc, prevIdStr := ps } r
+        wsTok :: t :: selGo { st with prevColon := pc, prevIdStr := ps, prevMatcher := pm } r
+      else t :: selGo { st with prevColon := pc, prevIdStr := ps, prevMatcher := pm } r
 
 def selToks (ts : List Tok) : List Tok := selGo SelSt.init ts
 
@@ -178,7 +186,7 @@ def atPrelude (data : List Char) (vals : List Tok) : List Tok :=
   match vals with
   | [w, u] =>
     if data == "@import".toList && u.tt == .url && 4 < u.data.length && u.data.getLast? == some ')' then
-      [w, .mk .url (importURL u.data) []]
+      [w, .mk .string (importURL u.data) []]
     else vals
   | _ => vals
 
